@@ -60,13 +60,14 @@ type Ctx struct {
 	facts    []ctxFact // global axioms added lazily (box/unbox, implements, distinct)
 	declName []string
 	factSeen map[string]bool
+	ifaces   map[string]*types.Interface // interfaces used in type assertions / implements()
 }
 
 func newCtx(sizes types.Sizes) *Ctx {
 	return &Ctx{
 		declared: map[string]string{}, sizes: sizes, typeIDs: map[string]types.Type{},
 		strLits: map[string]string{}, sortOf: map[string]string{}, heapSort: map[string]string{},
-		factSeen: map[string]bool{},
+		factSeen: map[string]bool{}, ifaces: map[string]*types.Interface{},
 	}
 }
 
@@ -120,7 +121,39 @@ type ctxSnap struct {
 	strLits  []string
 }
 
+// implPred returns the predicate "dynamic type implements interface it".
+func (c *Ctx) implPred(t types.Type) string {
+	it := t.Underlying().(*types.Interface)
+	key := typeKey(t)
+	c.mu.Lock()
+	c.ifaces[key] = it
+	c.mu.Unlock()
+	return c.declFun("impl!"+key, []string{sortType}, sortBool)
+}
+
 func (c *Ctx) snapshot() *ctxSnap {
+	// implements-facts for every (interface, concrete type constant) pair seen so far
+	c.mu.Lock()
+	type pair struct {
+		ik string
+		it *types.Interface
+		tk string
+		tt types.Type
+	}
+	var ps []pair
+	for ik, it := range c.ifaces {
+		for tk, tt := range c.typeIDs {
+			ps = append(ps, pair{ik, it, tk, tt})
+		}
+	}
+	c.mu.Unlock()
+	for _, p := range ps {
+		f := sx("impl!"+p.ik, p.tk)
+		if !types.Implements(p.tt, p.it) {
+			f = smtNot(f)
+		}
+		c.fact("impl!"+p.ik+"!"+p.tk, f, p.tk)
+	}
 	c.mu.Lock()
 	defer c.mu.Unlock()
 	sn := &ctxSnap{decls: append([]string(nil), c.decls...), declName: append([]string(nil), c.declName...), facts: append([]ctxFact(nil), c.facts...)}
@@ -318,7 +351,7 @@ func (c *Ctx) structSort(n *types.Named, st *types.Struct) string {
 	c.mu.Unlock()
 	name := "S!" + key
 	opaque := n == nil || n.Obj().Pkg() == nil || !c.inRepo(n.Obj().Pkg())
-	if n != nil && n.Obj().Pkg() != nil && n.Obj().Pkg().Path() == "reflect" && n.Obj().Name() == "SliceHeader" {
+	if n != nil && n.Obj().Pkg() != nil && n.Obj().Pkg().Path() == "reflect" && (n.Obj().Name() == "SliceHeader" || n.Obj().Name() == "Method") {
 		opaque = false
 	}
 	if opaque || st.NumFields() == 0 {
@@ -379,7 +412,7 @@ func (c *Ctx) isDatatypeStruct(t types.Type) bool {
 	if n == nil || n.Obj().Pkg() == nil {
 		return false
 	}
-	if n.Obj().Pkg().Path() == "reflect" && n.Obj().Name() == "SliceHeader" {
+	if n.Obj().Pkg().Path() == "reflect" && (n.Obj().Name() == "SliceHeader" || n.Obj().Name() == "Method") {
 		return true
 	}
 	return c.inRepo(n.Obj().Pkg())
